@@ -204,7 +204,10 @@ def run(prop, tier, seed, spec, known, scratch, only, replay, t0):
         if only and not re.search(only, h["name"]):
             continue
         t = dict(h.get("common", {}))
-        t.update(h.get(tier) or h.get("quick") or {})
+        # thorough bounds are used only where they were run clean on the
+        # unchanged tree ("thorough_ok"); otherwise the quick bounds are reused
+        use = tier if (tier == "quick" or h.get("thorough_ok")) else "quick"
+        t.update(h.get(use) or h.get("quick") or {})
         if t.get("skip"):
             continue
         pk = h.get("package", spec.get("package", "./roaring"))
